@@ -7,7 +7,7 @@ import six
 from cryptodatahub.common.exception import InvalidValue
 
 from cryptoparser.common.parse import ParsableBase, ParserBinary, ComposerBinary
-from cryptoparser.common.exception import NotEnoughData
+from cryptoparser.common.exception import NotEnoughData, TooMuchData
 from cryptoparser.tls.version import TlsVersion, TlsProtocolVersion
 from cryptoparser.tls.subprotocol import TlsContentType
 from cryptoparser.tls.subprotocol import SslMessageBase, SslMessageType, SslSubprotocolMessageParser
@@ -92,10 +92,16 @@ class SslRecord(ParsableBase):
         except InvalidValue as e:
             six.raise_from(InvalidValue(e.value, SslMessageType), e)
 
-        parser.parse_variant('message', SslSubprotocolMessageParser(parser['message_type']))
+        message_length = record_length - padding_length - 1
+        if message_length < 0:
+            raise InvalidValue(padding_length, SslRecord, 'padding_length')
+        parser.parse_raw('message_bytes', message_length)
+        message, parsed_length = SslSubprotocolMessageParser(parser['message_type']).parse(parser['message_bytes'])
+        if parsed_length < message_length:
+            raise TooMuchData(message_length - parsed_length)
         parser.parse_raw('padding', padding_length)
 
-        return SslRecord(message=parser['message']), parser.parsed_length
+        return SslRecord(message=message), parser.parsed_length
 
     def compose(self):
         body_composer = ComposerBinary()
